@@ -24,6 +24,8 @@ def queries(tier):
     qs = []
     for d in S:
         ln = 8 + d["NPAL"] * 1052 + 4 + 20 * d["NIMG"] + 16 + d["NANIM"] * 200
+        qs.append(Query("write_once_" + sname(d), "C10_art.cpp", "h_art_write_once", d, unwind=ln + 80, timeout=900, max_alloc=1 << 16,
+                        desc="PRT of shape %s: read, then write on a fixed buffer reproduces the input bytes" % sname(d)))
         qs.append(Query("roundtrip_" + sname(d), "C10_art.cpp", "h_art_roundtrip", d, unwind=ln + 80, timeout=1500, max_alloc=1 << 16,
                         desc="PRT of shape %s: read, cross-field rules, RGB/BGR palettes, write reproduces the input bytes, re-read equal, byte-stable, object unchanged by writing" % sname(d)))
     rej = shape(1, 1, 1, 1, 0, 1, 0)
